@@ -235,6 +235,28 @@ def find_item(rel, kind, sel):
     raise SpecError(f'unknown item kind {kind}')
 
 
+def cfg_true(pred):
+    """Evaluate a cfg predicate under the verified configuration: every cargo feature on, tokio_unstable,
+    unix, not(test), not(kani).  Unknown atoms count as true (conservative: the element is kept)."""
+    pred = pred.strip()
+    m = re.match(r'^(not|all|any)\s*\((.*)\)$', pred, flags=re.S)
+    if m:
+        parts, depth, cur = [], 0, ''
+        for ch in m.group(2):
+            if ch == '(': depth += 1
+            if ch == ')': depth -= 1
+            if ch == ',' and depth == 0:
+                parts.append(cur); cur = ''
+            else:
+                cur += ch
+        if cur.strip(): parts.append(cur)
+        vals = [cfg_true(x) for x in parts]
+        return {'not': (not vals[0]) if vals else True, 'all': all(vals), 'any': any(vals)}[m.group(1)]
+    if pred in ('test', 'kani', 'windows', 'loom'):
+        return False
+    return True
+
+
 KEEP_DERIVES = {'Clone', 'Copy', 'PartialEq', 'Eq', 'Default', 'PartialOrd', 'Ord', 'Hash'}
 
 
@@ -299,6 +321,35 @@ def strip_common(tx: Text, keep_derive=True, extra_keep=(), drop_derive=()):
                 tx.edits.append((t.start, ct[close].end, repl))
                 if dropped:
                     tx.log.append({'rule': 'R2', 'at': f'{tx.rel}:{rl.line_of(tx.src, t.start)}', 'text': 'derive ' + ','.join(dropped), 'note': 'derive dropped'})
+            elif body.startswith('cfg(') and not cfg_true(body[4:body.rindex(')')]):
+                # R2c: the configuration verified is "all cargo features on, tokio_unstable, unix, not test".
+                # An element whose cfg predicate is false under that configuration is not compiled: drop it.
+                j2 = close + 1
+                # further attributes on the same element
+                while j2 + 1 < len(ct) and ct[j2].text == '#' and ct[j2 + 1].text == '[':
+                    j2 = rl.match_close(ct, j2 + 1) + 1
+                k2 = j2
+                end = None
+                while k2 < len(ct):
+                    tk = ct[k2]
+                    if tk.kind == 'punct' and tk.text in rl.OPEN:
+                        k2 = rl.match_close(ct, k2) + 1
+                        # a block-bodied item / statement (`fn f() {..}`, `if .. {..}`) ends at its closing brace
+                        if ct[k2 - 1].text == '}' and (k2 >= len(ct) or ct[k2].text not in (',', ';', '.', '?', 'else')):
+                            end = ct[k2 - 1].end; break
+                        continue
+                    if tk.kind == 'punct' and tk.text in (',', ';'):
+                        end = tk.end; break
+                    if tk.kind == 'punct' and tk.text in rl.CLOSE:
+                        end = ct[k2 - 1].end; break
+                    k2 += 1
+                if end is None:
+                    end = ct[-1].end
+                tx.edit(t.start, end, '', 'R2c', f'cfg({body[4:body.rindex(")")]}) is false under the verified configuration: element dropped')
+                # skip the tokens inside the dropped element
+                while i < len(ct) and ct[i].start < end:
+                    i += 1
+                continue
             else:
                 tx.edit(t.start, ct[close].end, '', 'R2', 'attribute dropped')
             i = close + 1; continue
